@@ -243,6 +243,10 @@ var sharedTemplates = []map[string]string{
 	{"main.p": "add_key(before, 1)\nuse(\"lib.p\")\nadd_key(never, 1)", "lib.p": "replace(message, \"a(b\", \"x\")"},
 	{"main.p": "add_key(a.b, message)\nrename(dst, a.b)\nxml(x, \"//b/@id\", o.p)\nset_tag(o.p)\nadd_key(c.d.e, 1)\ndrop_key(c.d.e)\nuppercase(dst)"},
 	{"main.p": "if n1 == 5 { x = 1 + \"a\" }\nadd_key(ok, true)\nuse(\"lib.p\")", "lib.p": "if message == \"\" { exit() }\ngrok(_, \"%{GREEDYDATA:all}\")\nadd_key(seen, all)"},
+	// collections that start empty and are filled by the run (every evaluation of {} or [] belongs to its run), documents
+	// with empty objects decoded and written into, patterns declared in blocks that declare nothing else
+	{"main.p": "m = {}\nm[message] = len(message)\nfor c in message { m[c] = 1 }\nseen = {}\nprobe(\"m\", len(m), len(seen), message in {})\nadd_key(js, m)\nuse(\"lib.p\")", "lib.p": "d = load_json(\"{\\\"labels\\\": {}, \\\"l\\\": []}\")\nd[\"labels\"][message] = 1\ncnt = {}\ncnt[message] = 1\nadd_key(lib_n, len(d[\"labels\"]) + len(cnt))"},
+	{"main.p": "if true {\n add_pattern(\"NUMBER\", \"[a-z]+\")\n}\nif true {\n ok = grok(_, \"%{NUMBER:num}\")\n probe(\"stock\", ok, num)\n}\nfor i in [1] {\n add_pattern(\"own\", \"[0-9]+\")\n}\nuse(\"lib.p\")", "lib.p": "if true {\n ok = grok(_, \"%{WORD:w} %{NUMBER:n2}\")\n add_key(lib_ok, ok)\n}"},
 }
 
 func genScenario(t *rapid.T) (*scenario, bool) {
